@@ -456,6 +456,43 @@ pub fn panic_signature(p: &str) -> String {
 }
 
 // ------------------------------------------------------------------------------------------------
+// Event log for offline checkers (append-only JSON lines; `--events FILE`). Bounded: a property module
+// decides what to record, the log stops accepting events at EVENT_CAP.
+
+static EVENT_LOG: Mutex<Option<std::io::BufWriter<std::fs::File>>> = Mutex::new(None);
+static EVENT_COUNT: AtomicU64 = AtomicU64::new(0);
+pub const EVENT_CAP: u64 = 400_000;
+
+pub fn open_event_log(path: &str) {
+    let f = std::fs::File::create(path).expect("create event log");
+    *EVENT_LOG.lock().unwrap() = Some(std::io::BufWriter::new(f));
+}
+pub fn events_enabled() -> bool {
+    EVENT_COUNT.load(Ordering::Relaxed) < EVENT_CAP && EVENT_LOG.lock().map(|g| g.is_some()).unwrap_or(false)
+}
+pub fn log_event(line: &str) {
+    use std::io::Write;
+    if EVENT_COUNT.fetch_add(1, Ordering::Relaxed) >= EVENT_CAP {
+        return;
+    }
+    if let Ok(mut g) = EVENT_LOG.lock() {
+        if let Some(w) = g.as_mut() {
+            let _ = w.write_all(line.as_bytes());
+            let _ = w.write_all(b"\n");
+        }
+    }
+}
+pub fn close_event_log() {
+    use std::io::Write;
+    if let Ok(mut g) = EVENT_LOG.lock() {
+        if let Some(w) = g.as_mut() {
+            let _ = w.flush();
+        }
+        *g = None;
+    }
+}
+
+// ------------------------------------------------------------------------------------------------
 // Crash monitor: a fatal signal (abort from a non-unwinding panic / unsafe precondition check,
 // SIGSEGV, SIGBUS, SIGILL, SIGFPE) while a case is running prints which case it was, so that the
 // driver can report it with a replay instead of "the harness died".
